@@ -812,6 +812,15 @@ def candidates(case):
         c = drop_op(case, i)
         if c is not None and c["ops"]:
             out.append(c)
+    order = ["dist", "uni", "bi", "mid"]
+    for knd in order[:order.index(case["kind"])]:
+        c = copy.deepcopy(case)
+        c["kind"] = knd
+        c.pop("central", None)
+        c.pop("unknown", None)
+        tree_ops = [o for o in c["ops"] if o[0] not in ("new", "obj_set_params", "obj_set_max_time")]
+        if (knd == "dist" and not tree_ops) or (knd != "dist" and all(o[1] in node_paths(c) for o in tree_ops)):
+            out.append(c)
     if case["kind"] == "mid":
         for key in ("unknown", "central"):
             if case.get(key):
@@ -861,6 +870,14 @@ def run(ctx: Ctx, a_ok: bool):
     cases = [gen_case(ctx.rng, ctx.tier) for _ in range(n)]
     # fixed regression histories (the two repaired defects, aliasing, restore)
     cases += fixed_cases()
+    if ctx.tier == "thorough":
+        enum = enum_set_params_cases(3)
+        ctx.exhaustive = True
+        ctx.extra["exhaustive_space"] = ("Distribution.set_params on fam1(a, b): all positional tuples over {None, 0.0, 0.5, -1.0} "
+                                         f"of length <= 3 x all keyword subsets of {{a, b, zz}} = {len(enum)} calls")
+    else:
+        enum = enum_set_params_cases(2)
+    cases += enum
     for c in cases:
         try:
             nt = nontrivial(c)
@@ -900,6 +917,23 @@ def fixed_cases():
             ["set_max_time", [], 3],
             ["set_dist_params", [], [], {("contra_early_a" if kind == "bi" else "noext_contra_early_a"): 1.75}],
         ]})
+    return out
+
+
+def enum_set_params_cases(max_len: int):
+    """Every call shape of Distribution.set_params on a two-parameter family: positional values from
+    {None, 0.0, 0.5, -1.0} up to max_len, keyword subsets of {a, b, zz}; after a valid first update."""
+    import itertools
+    out = []
+    vals = [None, 0.0, 0.5, -1.0]
+    kws = [("a", 0.25), ("b", 2.0), ("zz", 1.0)]
+    for n in range(max_len + 1):
+        for args in itertools.product(vals, repeat=n):
+            for mask in range(8):
+                kw = {k: v for j, (k, v) in enumerate(kws) if mask >> j & 1}
+                out.append({"kind": "dist", "max_time": 2, "ops": [
+                    ["new", {"fam": 1}, 2, {"a": 1.5, "b": 0.75}],
+                    ["obj_set_params", 0, list(args), kw]]})
     return out
 
 
